@@ -71,9 +71,14 @@ def gen(ctx, deep):
             for a in ops:
                 for b in ops:
                     jobs.append((cfg, [a, b]))
+        # the async enforcer has its own copies of the internal paths
+        acfg = ec.Config(shape, adapter=True, watcher=None, initial=inits[1], is_async=True)
+        for a in ops:
+            jobs.append((acfg, [a, ("load", None)]))
+            jobs.append((acfg, [("autosave", False), a, ("save",), ("load", None)]))
         n = 800 if not deep else 5000
         for _ in range(n):
-            cfg = ec.Config(shape, adapter=True, watcher=None, initial=rng.choice(inits))
+            cfg = ec.Config(shape, adapter=True, watcher=None, initial=rng.choice(inits), is_async=rng.random() < 0.3)
             h = [rng.choice(ops) for _ in range(rng.randint(3, 8))]
             if rng.random() < 0.3:
                 k = rng.randrange(len(h))
